@@ -173,6 +173,8 @@ type Replay struct {
 	Minimised  map[string]interface{}  `json:"minimisation,omitempty"`
 	Variant    string                  `json:"variant,omitempty"`
 	Knobs      []instr.Knob            `json:"knobs_shrunk_to_2,omitempty"`
+	WeakHashes []instr.HashFunc        `json:"hash_functions_weakened,omitempty"`
+	WeakBits   int                     `json:"hash_bits_kept,omitempty"`
 	Readable   []string                `json:"readable"`
 	HowTo      string                  `json:"how_to_replay"`
 }
@@ -277,7 +279,7 @@ var curVariant string
 
 func runExplicit(e *Env, session []workerlib.ExplicitRun) *ProcResult {
 	ses := &workerlib.Session{Mode: "explicit", Explicit: session, Variant: curVariant}
-	return runWorker(e, ses, 2, 5*time.Minute)
+	return runWorker(e, ses, 1, 5*time.Minute)
 }
 
 // reproduces reports whether an explicit session shows the signature.
@@ -630,9 +632,13 @@ func explicitPrefix(e *Env, fv *foundViolation) []workerlib.ExplicitRun {
 		if to := ses.From + fv.V.RunIndex/2 + 1; to < ses.To {
 			ses.To = to
 		}
+	case "longpairs":
+		if to := ses.From + fv.V.RunIndex + 1; to < ses.To {
+			ses.To = to
+		}
 	}
 	ses.StopOnViol = false
-	pr := runWorker(e, &ses, 2, 15*time.Minute)
+	pr := runWorker(e, &ses, 1, 15*time.Minute)
 	var out []workerlib.ExplicitRun
 	for i, r := range pr.Runs {
 		if i > fv.V.RunIndex {
@@ -736,9 +742,11 @@ func processViolation(e *Env, c *Check, fv *foundViolation, limit time.Duration)
 	}
 	rp := &Replay{Property: "C05", Kind: fv.V.Kind, Signature: sig, Seed: c.Seed, RunSeed: fv.V.Seed, Stage: fv.Stage,
 		TreeDigest: e.TreeDig, SiteDigest: e.Report.SiteDigest, Session: small, HowTo: "cd /verif && ./run C05 --replay <this file>"}
-	if curVariant == "small" {
-		rp.Variant = "small"
-		rp.Knobs = e.Shrunk
+	if v := e.Variants[curVariant]; v != nil {
+		rp.Variant = v.Name
+		rp.Knobs = v.Knobs
+		rp.WeakHashes = v.Weak
+		rp.WeakBits = v.Bits
 	}
 	rp.Minimised = map[string]interface{}{
 		"before":         map[string]int{"runs": r0, "tasks": t0, "calls": c0, "schedule_segments": s0, "input_bytes": b0},
@@ -776,12 +784,19 @@ func processViolation(e *Env, c *Check, fv *foundViolation, limit time.Duration)
 	default:
 		rp.Summary = fv.V.Kind + ": " + fv.V.Detail
 	}
-	if rp.Variant == "small" {
+	if len(rp.Knobs) > 0 {
 		var ks []string
-		for _, k := range e.Shrunk {
+		for _, k := range rp.Knobs {
 			ks = append(ks, fmt.Sprintf("%s=%d->2 (%s:%d)", k.Name, k.Value, k.File, k.Line))
 		}
 		rp.Summary += " [configuration fault: capacity constants shrunk: " + strings.Join(ks, ", ") + "; sequential results of the whole corpus are unchanged by the shrink]"
+	}
+	if len(rp.WeakHashes) > 0 {
+		var hs []string
+		for _, h := range rp.WeakHashes {
+			hs = append(hs, fmt.Sprintf("%s %s (%s:%d)", h.Name, h.Ret, h.File, h.Line))
+		}
+		rp.Summary += fmt.Sprintf(" [configuration fault: hash function(s) %s weakened to %d bits: keys are identified by their hash alone, so colliding keys - which exist for any fixed-width hash - change each other's result]", strings.Join(hs, ", "), rp.WeakBits)
 	}
 	return writeReplay(e, rp), sig
 }
